@@ -29,7 +29,7 @@ META = dict(
          "span over ({None,0,1,2,3})^2 as given x 4 inclusivity settings (+defaults) on the same series, integer-typed data with open and closed spans, float32/float16 data against non-dyadic limits (flags follow the exact values), 2-D inputs in C / Fortran / "
          "transposed layout (flags stay with their elements), and the "
          "datetime64 variant (6 instants incl. NaT, spans over {None,t0,t1}^2). Each state = one call of the real "
-         "Scale: a 12345-point mixed series, its sorted gap-free versions (ascending / descending, every value repeated > 1000 times), 3000-point integer series and 5000-instant datetime series (mixed and sorted). function, judged per point by the scalar reference. non-trivial = reference demands SUSPECT/FAIL/MISSING "
+         "function, judged per point by the scalar reference. Scale: a 12345-point mixed series, its sorted gap-free versions (ascending / descending, every value repeated > 1000 times), 3000-point integer series and 5000-instant datetime series (mixed and sorted). non-trivial = reference demands SUSPECT/FAIL/MISSING "
          "or ValueError",
     bounds={"quick": {"max_len": 2, "values": list(VALS), "bounds": list(B)},
             "thorough": {"max_len": 4, "values": list(VALS), "bounds": list(B)}},
